@@ -8,7 +8,7 @@ open Sched
 
 /-- the tokens of a run -/
 @[c17set] def UsedS (n narch ntrs nblk src : Nat) : TS := fun c i s =>
-  ((c = 1 ∨ c = 2 ∨ c = 5 ∨ c = 12 ∨ c = 13 ∨ c = 14 ∨ c = 15) ∧ i = 0 ∧ s = 0) ∨ ((c = 9 ∨ c = 11) ∧ i = 0)
+  ((c = 0 ∨ c = 1 ∨ c = 2 ∨ c = 5 ∨ c = 12 ∨ c = 13 ∨ c = 14 ∨ c = 15) ∧ i = 0 ∧ s = 0) ∨ ((c = 9 ∨ c = 11) ∧ i = 0)
   ∨ (c = 7 ∧ i < n ∧ s = 0) ∨ (c = 8 ∧ i < n) ∨ (c = 6 ∧ i < narch ∧ s = 0) ∨ (c = 10 ∧ i < ntrs ∧ s = 0)
   ∨ (c = 3 ∧ s = 0 ∧ ((1 ≤ src ∧ i = 0) ∨ (src = 0 ∧ 1 ≤ i ∧ i ≤ nblk)))
   ∨ (c = 4 ∧ s = 0 ∧ ((1 ≤ src ∧ i < n) ∨ (src = 0 ∧ n ≤ i ∧ i < (nblk + 1) * n)))
@@ -39,8 +39,8 @@ theorem used_iff' (k : Nat) : used s.par k = true ↔ s.US (clsT k) (idxT k) (sh
 
 theorem rep_allToks : Rep s.allToks s.US := by
   unfold allToks
-  have r1 : Rep [nfnTok, tk 2 0 0, tk 5 0 0, tk 9 0 0, tk 9 0 1, tk 11 0 0, tk 11 0 1, tk 12 0 0, tk 13 0 0, tk 14 0 0, tk 15 0 0]
-      (fun c i s' => ((c = 1 ∨ c = 2 ∨ c = 5 ∨ c = 12 ∨ c = 13 ∨ c = 14 ∨ c = 15) ∧ i = 0 ∧ s' = 0) ∨ ((c = 9 ∨ c = 11) ∧ i = 0)) := by
+  have r1 : Rep [nfnTok, tk 2 0 0, tk 5 0 0, tk 9 0 0, tk 9 0 1, tk 11 0 0, tk 11 0 1, tk 12 0 0, tk 13 0 0, tk 14 0 0, tk 15 0 0, tk 0 0 0]
+      (fun c i s' => ((c = 0 ∨ c = 1 ∨ c = 2 ∨ c = 5 ∨ c = 12 ∨ c = 13 ∨ c = 14 ∨ c = 15) ∧ i = 0 ∧ s' = 0) ∨ ((c = 9 ∨ c = 11) ∧ i = 0)) := by
     intro k
     have := shT_lt k
     simp only [List.mem_cons, List.mem_nil_iff, or_false, nfnTok,
@@ -49,7 +49,7 @@ theorem rep_allToks : Rep s.allToks s.US := by
       eq_tk_iff (c := 9) (s := 1) (by decide) (by decide), eq_tk_iff (c := 11) (s := 0) (by decide) (by decide),
       eq_tk_iff (c := 11) (s := 1) (by decide) (by decide), eq_tk_iff (c := 12) (s := 0) (by decide) (by decide),
       eq_tk_iff (c := 13) (s := 0) (by decide) (by decide), eq_tk_iff (c := 14) (s := 0) (by decide) (by decide),
-      eq_tk_iff (c := 15) (s := 0) (by decide) (by decide)]
+      eq_tk_iff (c := 15) (s := 0) (by decide) (by decide), eq_tk_iff (c := 0) (s := 0) (by decide) (by decide)]
     omega
   have r2 := rep_procAll s.n 1 (by omega)
   have r3 := Rep.mapTk (c0 := 6) (s0 := 0) (by decide) (by decide) (s.archIdx s.k)
@@ -230,11 +230,6 @@ theorem rep_wait_rund : Rep (waitPay (mkSpec s.par) s.kids oRund) TailS := by
   simp only [List.mem_singleton, exists_eq_left]
   exact rep_done_rund s k
 
-theorem spawnPay_tP_merged (hm : s.merged = true) : (mkSpec s.par).spawnPay tP = [] := by
-  show spawnPayOf s.par tP = []
-  have hm' : s.par.merged = true := hm
-  rw [spawnPayOf_2 _ _ (show clsOf tP = 2 from rfl)]; simp [hm']
-
 theorem typedR_spawns :
     HT (mkSpec s.par) s.kids tR s.R0 [.lock oCfg, .rd vVip, .unlock oCfg, .wgAdd oRund, .spawn tP, .spawn tL]
       (ClientS s.n) := by
@@ -244,7 +239,7 @@ theorem typedR_spawns :
   | true =>
     have h0 : s.src ≠ 0 := by
       intro h; rw [merged_zero h] at hm; cases hm
-    refine HT.cons (HT.spawn0 (spawnPay_tP_merged s hm)) ?_
+    refine HT.cons (HT.spawn (rep_spawn_P_merged s hm) (by toksub)) ?_
     exact (HT.spawn (rep_spawn_tL s 1 (by simp [hm])) (by toksub)).post (by toksub)
   | false =>
     have h0 : s.src = 0 := by simpa [Sched.merged] using hm
